@@ -392,7 +392,7 @@ def run_shard(ctx):
     workdir = tempfile.mkdtemp(prefix='fsicverif-c07-')
     ctx.seen('flavours', flavour(ctx))
     try:
-        count = ctx.pick(8, 150)
+        count = ctx.pick(10, 300)
         for i in range(count):
             literals = i % 3 == 2
             big = i % 5 == 4
